@@ -25,6 +25,7 @@ theorem prepN_nofuel {files : Files} {J : PJ} {inl : List Name} (hJ : PJNoFuel f
   | .text _, _ => by simp [prepN]
   | .var _, _ => by simp [prepN]
   | .call _, _ => by simp [prepN]
+  | .select, _ => by simp [prepN]
   | .elem t b, c => by rw [prepN_elem]; exact Res.bind_ne_fuel (prepL_nofuel hJ b c) (by simp)
   | .cond cd b, c => by rw [prepN_cond]; exact Res.bind_ne_fuel (prepL_nofuel hJ b c) (by simp)
   | .loop x xs b, c => by rw [prepN_loop]; exact Res.bind_ne_fuel (prepL_nofuel hJ b c) (by simp)
@@ -150,7 +151,12 @@ theorem renderN_le (inl : Mode) (files : Files) {J J' : RJ} (hJ : JLe J J') :
     | none => exact Le.bind (renderL_le inl files hJ body rng st) fun r => Le.refl _
     | some p =>
       obtain ⟨idx, mb⟩ := p
-      exact Le.bind (renderL_le inl files hJ body _ st) fun r => hJ _ _ _
+      exact Le.bind (renderL_le inl files hJ body _ st) fun r => Le.bind (hJ _ _ _) fun r' => Le.refl _
+  | .select, rng, st => by
+    rw [renderN_select, renderN_select]
+    cases st.sel with
+    | nil => exact Le.refl _
+    | cons c _ => exact hJ _ _ _
   | .cond c body, rng, st => by
     rw [renderN_cond, renderN_cond]
     refine Le.bind (Le.refl _) fun b => ?_
@@ -261,7 +267,14 @@ theorem renderN_kc (files : Files) {J : RJ} (hJ : ∀ rng ns st, KC (J rng ns st
     | none => exact KC.bind (renderL_kc files hJ body rng st) fun r hr => KC.ok hr
     | some p =>
       obtain ⟨idx, mb⟩ := p
-      exact KC.bind (renderL_kc files hJ body _ st) fun r hr => hr ▸ hJ _ mb r.2
+      refine KC.bind (renderL_kc files hJ body _ st) fun r hr => ?_
+      refine KC.bind (hr ▸ hJ _ mb { r.2 with sel := r.1 :: r.2.sel }) fun r' hr' => ?_
+      exact KC.ok hr'
+  | .select, rng, st => by
+    rw [renderN_select]
+    cases st.sel with
+    | nil => exact KC.err
+    | cons c _ => exact hJ _ _ _
   | .cond c body, rng, st => by
     rw [renderN_cond]
     cases evalCond st c with
